@@ -598,6 +598,29 @@ def generate(repo):
     g.item('Qbfs', 'prysm/polynomials/qpoly.py:Qbfs', lambda: get_def(qp, 'Qbfs'), qbfs,
            f'def qbfs (sqrt : K → K) (n : Int) (x : K) : K := {M}.qbfs sqrt n.toNat x')
 
+    # ---- the cosine (a) and the sine (b) halves of the 2D-Q sum are the same code up to a <-> b
+    def q2d_branches_symmetric():
+        """compute_z_zprime_Q2d: the `if Na >= 0:` block, with a -> b in every identifier (Na->Nb, a_coef->b_coef, alphas_a->alphas_b,
+        Sa->Sb, Sprimea->Sprimeb), is the `if Nb >= 0:` block: same guards (also of the m == 1 correction), same constants, same indices.
+        None when the two blocks are not found in this shape."""
+        fn = get_def(qp, 'compute_z_zprime_Q2d')
+        blocks = {}
+        for n in ast.walk(fn):
+            if isinstance(n, ast.If) and isinstance(n.test, ast.Compare) and isinstance(n.test.left, ast.Name) and n.test.left.id in ('Na', 'Nb') \
+                    and any(isinstance(c, ast.Call) and 'clenshaw' in ast.unparse(c.func) for c in ast.walk(n)):
+                blocks.setdefault(n.test.left.id, []).append(n)
+        if sorted(blocks) != ['Na', 'Nb'] or len(blocks['Na']) != 1 or len(blocks['Nb']) != 1:
+            return None
+        ren = {'Na': 'Nb', 'a_coef': 'b_coef', 'alphas_a': 'alphas_b', 'Sa': 'Sb', 'Sprimea': 'Sprimeb'}
+
+        class R(ast.NodeTransformer):
+            def visit_Name(self, node):
+                return ast.copy_location(ast.Name(id=ren.get(node.id, node.id), ctx=node.ctx), node)
+        import copy
+        a = R().visit(copy.deepcopy(blocks['Na'][0]))
+        return ast.dump(a) == ast.dump(blocks['Nb'][0])
+    g.fact('q2dSumBranchesSymmetric', 'prysm/polynomials/qpoly.py:compute_z_zprime_Q2d', q2d_branches_symmetric)
+
     return g.finish()
 
 
